@@ -355,6 +355,29 @@ func probePools(putExprCases []string) []poolRow {
 				st[fn] = worse(st[fn], s2)
 			}
 		}
+		// memory handed to another pool: after the release, objects taken from the expression-slice pool are written
+		// to; nothing of that may show up inside the released object (a Put that pools pointers into its own storage)
+		{
+			drainPools()
+			o3 := pr.Get()
+			v3 := reflect.ValueOf(o3)
+			fill(v3.Elem(), 0)
+			pr.Put(o3)
+			var held []*[]ast.Expression
+			for k := 0; k < 6; k++ {
+				sl := ast.GetExpressionSlice()
+				*sl = append(*sl, &ast.Identifier{Name: "ALIAS"})
+				held = append(held, sl)
+			}
+			for fn, s3 := range statusOf(v3.Elem()) {
+				if (st[fn] == "zero" || st[fn] == "len0_clean") && s3 != "zero" && s3 != "len0_clean" {
+					st[fn] = s3 + " (after slices from the expression-slice pool were written to: shared memory)"
+				}
+			}
+			for _, sl := range held {
+				*sl = (*sl)[:0]
+			}
+		}
 		emit(pr.Name, "Put", st, same)
 	}
 	// PutExpression on every case type of its switch
